@@ -3,7 +3,8 @@
 import json, os, sys
 ORIGIN = {
     5: "written by a fresh sub-agent given only the property text and its own scratch worktree (at /repo commit fc05304); the agent listed a dozen candidate mechanisms first and was told which numbered one to realise, so that rounds do not converge on the obvious one; applied unchanged",
-    6: "written by a fresh sub-agent given only the property text and its own scratch worktree; applied unchanged",
+    6: "written by a fresh sub-agent given only the property text and its own scratch worktree (at /repo commit fc05304); the agent listed at least fifteen candidate mechanisms and was told which numbered one (8-14) to realise; applied unchanged",
+    7: "written by a fresh sub-agent given only the property text and its own scratch worktree (at /repo commit fc05304); the agent listed at least twenty candidate mechanisms and was told which numbered one (10-18) to realise; applied unchanged",
 }
 pid, rnd, change, needs, first, strength = sys.argv[1:7]
 caught = sys.argv[7:] or [pid]
